@@ -615,6 +615,52 @@ theorem header_v3_call_site (env : PyIRCn.Env) (ctx : List (String × PyIRCn.CVa
       headerV3Inner env.plist := funext (kd_header_v3_decl_eq_model env ctx)
   rw [h]; rfl
 
+/-- **`kd_v3_threadmap`, interpreted, is the thread-map reader of `parseV3`** (`prefixedBytes` then the pure
+    `greedyEntries` of the payload: the last two steps of `threadmapV3`) — for EVERY reader state, and for every fuel
+    policy that gives a range on a private sub-stream of `n` bytes at least `n / 32 + 1` iterations (both policies used by
+    the other declaration theorems do: `n + 1` and `n / 16 + 2`): the `Prefixed(Int64ul, …)` length and payload are read
+    with the model's two reads, `GreedyRange(kd_threadmap)` runs on the private sub-stream — so the hand model's PURE
+    recursion over 32-byte slices (`greedyEntriesAux`: stop at the first entry that is short, has no NUL or is not UTF-8,
+    drop it and everything behind it) is a THEOREM about the interpreted `GreedyRange` / `Struct` / `FixedSized` /
+    `CString` (`PyIRCn.greedyRange_threadEntry`), no longer its definition. -/
+theorem kd_v3_threadmap_decl_eq_model (env : PyIRCn.Env) (ctx : List (String × PyIRCn.CVal))
+    (hf : ∀ b : Bytes, b.length / 32 + 1 ≤ env.fuel (Reader.ofBytes b)) (r : Reader) :
+    PyIRCn.project PyIRCn.CVal.toThreadmapV3 ((Gen.PyIRCn.module.decl "kd_v3_threadmap").parse env ctx) r =
+      (prefixedBytes >>= fun payload => pure (greedyEntries payload)) r := by
+  rw [decl_source_is_expected_ir.1, PyIRCn.decl_kd_v3_threadmap, PyIRCn.project_kd_v3_threadmap env ctx hf]
+
+/-- the call site in `parse_v3`: the model's `threadmapV3` is the two scans followed by the interpreted declaration. -/
+theorem threadmap_v3_call_site (env : PyIRCn.Env) (ctx : List (String × PyIRCn.CVal))
+    (hf : ∀ b : Bytes, b.length / 32 + 1 ≤ env.fuel (Reader.ofBytes b)) :
+    threadmapV3 = (do
+      let _ ← readPlain (8 - Gen.Consts.RAW_VERSION_SIZE)
+      seekUntil Gen.Consts.TRACEV3_STACKSHOT_END
+      seekUntil Gen.Consts.TRACEV3_THREADMAP_TAG
+      PyIRCn.project PyIRCn.CVal.toThreadmapV3 ((Gen.PyIRCn.module.decl "kd_v3_threadmap").parse env ctx)) := by
+  have h : PyIRCn.project PyIRCn.CVal.toThreadmapV3 ((Gen.PyIRCn.module.decl "kd_v3_threadmap").parse env ctx) =
+      (prefixedBytes >>= fun payload => pure (greedyEntries payload)) :=
+    funext (kd_v3_threadmap_decl_eq_model env ctx hf)
+  rw [h]; rfl
+
+/-- both fuel policies of the declaration theorems satisfy the hypothesis -/
+example (b : Bytes) : b.length / 32 + 1 ≤ (fun r : Reader => r.rest.length + 1) (Reader.ofBytes b) := by
+  show b.length / 32 + 1 ≤ (List.drop 0 b).length + 1
+  simp only [List.drop_zero]; omega
+
+example (b : Bytes) : b.length / 32 + 1 ≤ (fun r : Reader => r.rest.length / 16 + 2) (Reader.ofBytes b) := by
+  show b.length / 32 + 1 ≤ (List.drop 0 b).length / 16 + 2
+  simp only [List.drop_zero]; omega
+
+/-- non-vacuity: a 70-byte payload — one good entry, one entry whose name has no NUL, 6 more bytes: one entry is
+    delivered, the reader stands behind the WHOLE payload (position 78, two reads) -/
+example :
+    (match PyIRCn.project PyIRCn.CVal.toThreadmapV3
+        ((Gen.PyIRCn.module.decl "kd_v3_threadmap").parse ⟨EndToEnd.noPlist, fun r => r.rest.length / 16 + 2⟩ [])
+        (Reader.ofBytes ([70, 0, 0, 0, 0, 0, 0, 0] ++ C02.exEntry 5 9 ([0x61, 0] ++ List.replicate 18 1) ++
+          C02.exEntry 6 9 (List.replicate 20 0x41) ++ [1, 2, 3, 4, 5, 6] ++ [0xaa])) with
+     | (.ok tm, r) => some (tm, r.pos, r.calls)
+     | (.error _, _) => none) = some ([⟨5, 9, [0x61]⟩], 78, 2) := by decide +kernel
+
 /-- twelve fields 1 … 12, a 3-byte payload, then one more byte -/
 def exDeclHeaderV3 : Bytes :=
   [1, 0, 0, 0] ++ [2, 0, 0, 0] ++ [3, 0, 0, 0, 0, 0, 0, 0] ++ [4, 0, 0, 0] ++ [5, 0, 0, 0] ++ [6, 0, 0, 0, 0, 0, 0, 0] ++
